@@ -63,6 +63,8 @@ structure SubSt where
   regAt : Option Nat := none
   /-- ghost: length of `log` when the loop stopped delivering to it -/
   endAt : Option Nat := none
+  /-- ghost: what the replayer held when the loop accepted the subscription -/
+  storeAt : List PubId := []
 deriving DecidableEq, Repr
 
 inductive PubPc
@@ -79,6 +81,9 @@ deriving DecidableEq, Repr
 structure Cfg where
   subTopics : SubId → List Topic
   pubTopics : PubId → List Topic
+  /-- the publication whose ID a subscription presents as Last-Event-ID, if any (used by the
+  specification of conforming replayers only; `step` does not look at it) -/
+  subLast : SubId → Option PubId := fun _ => none
 
 inductive ShutPc
   | idle | start | waiting | returned (r : Option Err)
@@ -189,7 +194,7 @@ def step (c : Cfg) (s : St) : Label → Option St
     if (s.subs i).pc = .idle then some (setSub s i { s.subs i with pc := .start }) else none
   | .subAccept i rc o =>
     if (s.subs i).pc = .start ∧ s.joe = .idle then
-      let st := { s.subs i with pc := .waiting, calls := (s.subs i).calls ++ rc, replayed := rc.length }
+      let st := { s.subs i with pc := .waiting, calls := (s.subs i).calls ++ rc, replayed := rc.length, storeAt := s.store }
       if s.replayer then
         match o with
         | .ok => some { setSub s i { st with regAt := some s.log.length } with subscribers := i :: s.subscribers }
